@@ -415,7 +415,6 @@ mod verif_pdu_layout {
                 assert!(a == Action::from_flags(flags), "action from the flags octet");
                 assert!(o.asn.into_u32() == asn && o.prefix.prefix_len() == len && o.prefix.max_len() == Some(ml), "item fields");
                 assert!(o.prefix.addr() == IpAddr::V4(Ipv4Addr::from(addr & !((hostmask(len) >> 96) as u32))), "address with host bits cleared (relaxed constructor)");
-                mem::forget(o);
             }
             Ok(_) => assert!(false, "an IPv4 prefix PDU is an origin"),
             Err(e) => { assert!(!ok, "rejected only when the lengths are inconsistent"); mem::forget(e); }
@@ -431,7 +430,6 @@ mod verif_pdu_layout {
                 assert!(a == Action::from_flags(flags), "action from the flags octet");
                 assert!(o.asn.into_u32() == asn && o.prefix.prefix_len() == len && o.prefix.max_len() == Some(ml), "item fields");
                 assert!(o.prefix.addr() == IpAddr::V6(Ipv6Addr::from(addr & !hostmask(len))), "address with host bits cleared (relaxed constructor)");
-                mem::forget(o);
             }
             Ok(_) => assert!(false, "an IPv6 prefix PDU is an origin"),
             Err(e) => { assert!(!ok, "rejected only when the lengths are inconsistent"); mem::forget(e); }
@@ -457,24 +455,30 @@ mod verif_pdu_layout {
             Ok(r) => { assert!(false, "must be rejected"); mem::forget(r); }
         }
     }}
-    //@harness pdu_payload_origin_roundtrip K fn=Payload::new,Payload::to_payload timeout=900
-    verif_harness!{ pdu_payload_origin_roundtrip; |version: u8, announce: bool, v4: bool, len: u8, raw: u128, has: bool, m: u8, asn: u32| {
-        // to_payload . new == id on item and action, for both families and both actions
-        let action = if announce { Action::Announce } else { Action::Withdraw };
-        let o = RouteOrigin::new(mkml(v4, len, raw, has, m), Asn::from_u32(asn));
+    fn origin_roundtrip(version: u8, action: Action, o: RouteOrigin) {
+        // to_payload . new == id on item and action
         let p = Payload::new(version, action.into_flags(), PayloadRef::Origin(o));
         assert!(p.version() == version && p.flags() == action.into_flags(), "version and flags kept");
         match p.to_payload() {
             Ok((a, payload::Payload::Origin(back))) => {
                 assert!(a == action, "same action");
-                assert!(back == o, "same origin (prefix, effective max length, AS number)");
+                // RouteOrigin equality is (prefix, effective max length, AS number): addr_prefix::route_origin_eq_ord_hash
                 assert!(back.prefix.prefix() == o.prefix.prefix() && back.asn == o.asn
-                        && back.prefix.max_len() == Some(o.prefix.resolved_max_len()), "max length comes back resolved");
-                mem::forget(back);
+                        && back.prefix.resolved_max_len() == o.prefix.resolved_max_len(), "same origin (prefix, effective max length, AS number)");
+                assert!(back.prefix.max_len() == Some(o.prefix.resolved_max_len()), "max length comes back resolved");
+                assert!(back == o, "RouteOrigin equality");
             }
             Ok(r) => { assert!(false, "an origin comes back as an origin"); mem::forget(r); }
             Err(e) => { assert!(false, "a PDU written by the library converts back"); mem::forget(e); }
         }
+    }
+    //@harness pdu_payload_origin_v4_roundtrip K fn=Payload::new,Payload::to_payload timeout=1200
+    verif_harness!{ pdu_payload_origin_v4_roundtrip; |version: u8, announce: bool, len: u8, raw: u128, has: bool, m: u8, asn: u32| {
+        origin_roundtrip(version, action_of(announce), RouteOrigin::new(mkml(true, len, raw, has, m), Asn::from_u32(asn)));
+    }}
+    //@harness pdu_payload_origin_v6_roundtrip K fn=Payload::new,Payload::to_payload timeout=1200
+    verif_harness!{ pdu_payload_origin_v6_roundtrip; |version: u8, announce: bool, len: u8, raw: u128, has: bool, m: u8, asn: u32| {
+        origin_roundtrip(version, action_of(announce), RouteOrigin::new(mkml(false, len, raw, has, m), Asn::from_u32(asn)));
     }}
 
     // ---------------- router keys and ASPA through Payload::new / to_payload (static Bytes) ----------------
@@ -538,6 +542,23 @@ mod verif_pdu_layout {
     //@harness pdu_payload_aspa_withdraw_roundtrip K fn=Payload::new_if_supported,Payload::new,Payload::to_payload timeout=900
     verif_harness!{ pdu_payload_aspa_withdraw_roundtrip; |version: u8, customer: u32, two: bool| {
         if two { aspa_roundtrip(version, Action::Withdraw, customer, &PROV8[..]) } else { aspa_roundtrip(version, Action::Withdraw, customer, &PROV8[..0]) }
+    }}
+
+    // ---------------- Error::new: RFC 8210 5.11 layout (bounded sizes: Vec code) ----------------
+    //@harness pdu_error_new_kb Kb fn=Error::new bound="encapsulated PDU <= 32 octets, text <= 16 octets" timeout=900
+    verif_harness!{ pdu_error_new_kb; |version: u8, code: u16, pdu: [u8; 32], n: usize, text: [u8; 16], m: usize, i: usize, j: usize| {
+        assume(n <= 32 && m <= 16);
+        let e = Error::new(version, code, &pdu[..n], &text[..m]);
+        let o = e.as_ref();
+        assert!(o.len() == 16 + n + m, "octets: header, length, PDU, length, text");
+        let h: Header = from_wire(&o[..8]);
+        assert!(h.version() == version && h.pdu() == 10 && h.session() == code, "header: version, type 10, error code in the session field");
+        assert!(h.length() as usize == o.len(), "length field == octets written");
+        assert!(v32(o[8], o[9], o[10], o[11]) as usize == n, "length of the encapsulated PDU, big-endian");
+        if i < n { assert!(o[12 + i] == pdu[i], "encapsulated PDU octets"); }
+        assert!(v32(o[12 + n], o[13 + n], o[14 + n], o[15 + n]) as usize == m, "length of the text, big-endian");
+        if j < m { assert!(o[16 + n + j] == text[j], "text octets"); }
+        mem::forget(e);
     }}
 }
 //@end
